@@ -31,6 +31,20 @@ QueryFilterClauses(c, r) ==
     ELSE <<>>
 
 ---------------------------------------------------------------------------
+(* C20 - the comparer accepts a faithful copy and rejects a copy that differs in an examined aspect.  *)
+(* Observed: raises (did Comparer(a, b).compare() raise).  A faithful copy is decided structurally by *)
+(* the correspondence of C07 (same names, data, order, shapes, connections), not by how it was made.  *)
+C20_AcceptsEqual(s, c, raises) ==
+    (c.op = "compare" /\ C07_Iso(s, s, "N", c.a, c.b)) => ~raises
+C20_RejectsDifferent(s, c, raises) ==
+    (c.op = "compare" /\ Differs(s, c.a, c.b)) => raises
+CompareClauses(s, c, r) ==
+    IF c.op = "compare" THEN
+      << <<"C20_AcceptsEqual", C20_AcceptsEqual(s, c, r.raises)>>,
+         <<"C20_RejectsDifferent", C20_RejectsDifferent(s, c, r.raises)>> >>
+    ELSE <<>>
+
+---------------------------------------------------------------------------
 (* the query product offered for a state (sampled by the scope) *)
 FlatFns == {"netlists", "libraries", "definitions", "instances", "ports", "cables"}
 HierFns == {"hinstances", "hports", "hpins", "hcables", "hwires"}
